@@ -79,3 +79,66 @@ package ss2022
 //@   requires n >= 1 && n <= 1 << 40 && n & (n - 1) == 0 && size >= 1 && size <= 1 << 40 && size + 64 <= 64 * n
 //@   requires counter > last && c <= last && counter - c < size
 //@   ensures !(((((c / 64) & (n - 1)) - last / 64 - 1) & (n - 1)) < uint64(min(int(counter / 64 - last / 64), int(n))))
+
+// ---------------------------------------------------------------------------
+// Timestamp validation and salt pool (property C03)
+// ---------------------------------------------------------------------------
+
+//@ pure be16(b []byte) uint16 = uint16(b[0]) << 8 | uint16(b[1])
+//@ pure be64(b []byte) uint64 = uint64(b[0]) << 56 | uint64(b[1]) << 48 | uint64(b[2]) << 40 | uint64(b[3]) << 32 | uint64(b[4]) << 24 | uint64(b[5]) << 16 | uint64(b[6]) << 8 | uint64(b[7])
+
+// The property's own sentence: "within 30 seconds of the server clock" (literal 30, not the code's constant).
+//@ pure tsValid(ts int64, now time.Time) bool = ts >= now.Unix() - 30 && ts <= now.Unix() + 30
+
+//@ func ValidateUnixEpochTimestamp
+//@   requires len(b) >= 8
+//@   modifies nothing
+//@   ensures isnil(result) <==> tsValid(int64(be64(b)), now)
+
+//@ func ParseTCPRequestFixedLengthHeader
+//@   requires len(b) >= 11
+//@   modifies nothing
+//@   ensures isnil(err) <==> (b[0] == 0 && tsValid(int64(be64(b[1:])), now))
+//@   ensures isnil(err) ==> n == int(be16(b[9:]))
+//@   ensures !isnil(err) ==> n == 0
+
+//@ func (*SaltPool).insert
+//@   modifies p.nodeBySalt, p.head, p.tail, p.tail.next, p.nodeBySalt[*]
+//@   ensures !isnil(p.nodeBySalt) && has(p.nodeBySalt, salt) && p.nodeBySalt[salt] == p.tail && !isnil(p.tail)
+//@   ensures p.tail.salt == salt
+//@   ensures p.tail.expiresAt == now.Add(ReplayWindowDuration)
+//@   ensures isnil(p.tail.next)
+//@   ensures fresh(p.tail)
+//@   ensures forall k [32]byte :: k != salt ==> has(p.nodeBySalt, k) == old(has(p.nodeBySalt, k)) && p.nodeBySalt[k] == old(p.nodeBySalt[k])
+
+//@ func (*SaltPool).pruneExpired
+//@   modifies p.head, p.tail, p.nodeBySalt[*]
+//@   ensures forall k [32]byte :: has(p.nodeBySalt, k) ==> old(has(p.nodeBySalt, k)) && p.nodeBySalt[k] == old(p.nodeBySalt[k])
+//@   ensures isnil(p.head) || p.head.expiresAt.After(now)
+//@   callsite delete: !isnil(node) && !node.expiresAt.After(now)
+//@   loop 0 modifies p.nodeBySalt[*]
+//@   loop 0 invariant !isnil(node) && !node.expiresAt.After(now)
+//@   loop 0 invariant forall k [32]byte :: has(p.nodeBySalt, k) ==> old(has(p.nodeBySalt, k)) && p.nodeBySalt[k] == old(p.nodeBySalt[k])
+
+//@ func (*SaltPool).Add
+//@   modifies p.nodeBySalt, p.head, p.tail, p.tail.next, p.nodeBySalt[*]
+//@   ensures !result ==> old(has(p.nodeBySalt, salt))
+//@   ensures result ==> has(p.nodeBySalt, salt) && p.nodeBySalt[salt].salt == salt && p.nodeBySalt[salt].expiresAt == now.Add(ReplayWindowDuration)
+//@   callsite insert: !has(p.nodeBySalt, salt)
+
+//@ func (*SaltPool).Contains
+//@   modifies nothing
+//@   ensures result == has(p.nodeBySalt, salt)
+
+//@ func (*SaltPool).TryContains
+//@   modifies nothing
+//@   ensures result ==> has(p.nodeBySalt, salt)
+
+// Top-level lemma taken from the property text: a request whose timestamp passes at t0 (when its salt is
+// stored) and would still pass at a later t1 must still find its salt in the pool at t1, i.e. the node
+// stored at t0 is not yet prunable at t1. Retention and the pruning comparison are exactly those of the
+// contracts of insert (expiresAt == now.Add(ReplayWindowDuration)) and pruneExpired (deleted only when
+// !expiresAt.After(now)).
+//@ lemma saltRetentionCoversTimestampValidity(ts int64, t0 time.Time, t1 time.Time)
+//@   requires tsValid(ts, t0) && tsValid(ts, t1) && !t1.Before(t0)
+//@   ensures t0.Add(ReplayWindowDuration).After(t1)
